@@ -185,6 +185,10 @@ Proof.
   change (Ascii.eqb "." ".") with true. rewrite Hh. cbn [andb].
   change (String a (t ++ c)) with (String a t ++ c). rewrite (span_name_plain (String a t) c _ Hw Hc). reflexivity.
 Qed.
+Lemma span_np_exp c : head_not is_fnc c = true -> span_name (String.length ("np.exp" ++ c)) ("np.exp" ++ c) = ("np.exp", c).
+Proof. intros Hc. change "np.exp" with ("np." ++ "exp"). apply (span_name_np "exp" c); [reflexivity|reflexivity|discriminate|exact Hc]. Qed.
+Lemma span_np_log c : head_not is_fnc c = true -> span_name (String.length ("np.log" ++ c)) ("np.log" ++ c) = ("np.log", c).
+Proof. intros Hc. change "np.log" with ("np." ++ "log"). apply (span_name_np "log" c); [reflexivity|reflexivity|discriminate|exact Hc]. Qed.
 Lemma lex_word w c f :
   head_not (fun h => negb (is_alpha_ h)) w = true -> w <> "" -> prefix_rest "self._" (w ++ c) = None ->
   span_name (String.length (w ++ c)) (w ++ c) = (w, c) ->
@@ -296,14 +300,14 @@ Proof.
     unfold known_fun in E1. repeat (apply orb_true_iff in E1 as [E1|E1]); apply String.eqb_eq in E1; subst w;
       (split; [reflexivity|]); (split; [reflexivity|]); (split; [exact A|]); (split; [reflexivity|]); (split; [discriminate|]);
       (split; [intros; reflexivity|]); intros c Hc;
-      first [ apply (span_name_plain _ c _ eq_refl Hc) | apply (span_name_np _ c eq_refl eq_refl ltac:(discriminate) Hc) ].
+      first [ exact (span_np_exp c Hc) | exact (span_np_log c Hc) | (apply span_name_plain; [reflexivity|exact Hc]) ].
   - destruct (kw_text x) as [w|] eqn:Ek; [|discriminate].
     destruct (String.eqb code w) eqn:E; [|discriminate]. apply String.eqb_eq in E. subst code.
     intros H; inversion H; subst q. exists w. split; [reflexivity|]. right.
     assert (A : after_match m = LNone \/ after_match m = LWord) by (unfold after_match; destruct (mkind m); auto).
     destruct x; cbn [kw_text] in Ek; try discriminate Ek; inversion Ek; subst w;
       (split; [reflexivity|]); (split; [reflexivity|]); (split; [exact A|]); (split; [reflexivity|]); (split; [discriminate|]);
-      (split; [intros; reflexivity|]); intros c Hc; apply (span_name_plain _ c _ eq_refl Hc).
+      (split; [intros; reflexivity|]); intros c Hc; (apply span_name_plain; [reflexivity|exact Hc]).
 Qed.
 
 Lemma tok_code_head m q code : tok_class m = Some q -> code_of_match m = Some code ->
